@@ -301,3 +301,29 @@ Definition select (c : cfg) (g : group) (rq : reqtype) (strict : bool) (excl : o
       else MErr ENoAlive l
   | _ => r
   end.
+
+(* the results a selection may produce, in the spec's vocabulary *)
+Definition results_of (m : msel) : list sel_res :=
+  match m with MOk ds l _ => map (fun d => ROk d l) ds | MErr e l => [RErr e l] end.
+
+(* ---- invariants (stated here, proved in C15_Proofs.v) ---- *)
+(* dialerToIndex and aliveEntries are inverse to each other: the swap-remove invariant *)
+Definition idx_ok (idx : nat -> slot) (es : list (nat * Z)) : Prop :=
+  forall d i, idx d = SAt i <-> exists l, nth_error es i = Some (d, l).
+
+(* aliveEntries against the spec's view of the same type: same nodes, no duplicates, and under a min policy
+   the cached sorting latency is the measurement last told (0 when there is none) *)
+Definition sim (minp : bool) (es : list (nat * Z)) (v : view) : Prop :=
+  NoDup (map fst v) /\
+  (forall d, In d (map fst es) <-> In d (map fst v)) /\
+  (minp = true -> forall d l, In (d, l) es -> exists m, In (d, m) v /\ l = eff m).
+
+Definition set_ok (a : aset) (v : view) : Prop :=
+  idx_ok (a_idx a) (a_entries a) /\ sim (is_min_policy (a_policy a)) (a_entries a) v.
+
+Definition group_ok (c : cfg) (g : group) (s : sstate) : Prop :=
+  g_store g = ss_store s /\ g_policy g = ss_policy s /\
+  match g_policy g with
+  | GFixed _ => g_sets g = None
+  | GSet p => exists sets, g_sets g = Some sets /\ forall t, a_policy (sets t) = p /\ set_ok (sets t) (ss_views s t)
+  end.
